@@ -732,7 +732,7 @@ pub fn run_list(env: &Arc<Env>, stats: &Arc<Stats>, cases: Vec<Case>, threads: u
 
 fn fin() -> Finish {
     Finish {
-        level: "E1 exhaustive table sweep + E3 real node (console port)",
+        level: "fault_enumeration",
         rule: "(a) every instantiated console route x 7 methods x every role vector of length <= 2 over 16 role strings (+ length 3 over {0,1,2,7}) through UserRole::match_url_by_roles - complete; (b) every instantiated console route x 7 methods x {no / empty / garbage / never issued / OpenAPI / expired session, valid session of 9 users covering every role, role pairs, duplicates, unknown and named role strings} x carrier {cookie, Token header, both} in canonical spelling - complete - plus random path spellings. Non-trivial = the router path is a registered console route (b) / the (route, method) is granted to some role vector (a).".to_string(),
         assumptions: vec![
             "API call = path (as the router sees it) under /rnacos/api/; pages and static assets are not judged in (b)".to_string(),
